@@ -379,6 +379,7 @@ type Env struct {
 	loop  *loopInfo
 	depth int
 	bound []string // SMT names of quantified variables in scope
+	noUndef bool
 }
 
 var untypedNil = types.Typ[types.UntypedNil]
@@ -575,6 +576,44 @@ func (eng *Engine) resolveTypeString(s string, pkg *types.Package) types.Type {
 					q = q[2:]
 				}
 			}
+			wrap := func(t types.Type) types.Type {
+				for k := len(prefix); k > 0; {
+					if strings.HasSuffix(prefix[:k], "[]") {
+						t = types.NewSlice(t)
+						k -= 2
+					} else {
+						t = types.NewPointer(t)
+						k--
+					}
+				}
+				return t
+			}
+			if ip, ok := eng.importAliases(pkg)[q]; ok {
+				name := s[i+1:]
+				targs := ""
+				if b := strings.Index(name, "["); b > 0 {
+					targs = name[b:]
+					name = name[:b]
+				}
+				if obj := ip.Scope().Lookup(name); obj != nil {
+					var t types.Type = obj.Type()
+					if targs != "" {
+						// generic instantiation with basic type arguments, e.g. Set[string]
+						var args []types.Type
+						for _, a := range strings.Split(strings.Trim(targs, "[]"), ",") {
+							args = append(args, eng.resolveTypeString(strings.TrimSpace(a), pkg))
+						}
+						it, ierr := types.Instantiate(nil, t, args, false)
+						if ierr != nil {
+							specErr("cannot instantiate %s: %v", s, ierr)
+						}
+						t = it
+					}
+					t = wrap(t)
+					eng.typeCache[key] = t
+					return t
+				}
+			}
 			for _, p := range eng.allPkgs {
 				if p.Types.Name() == q {
 					if obj := p.Types.Scope().Lookup(s[i+1:]); obj != nil {
@@ -674,7 +713,10 @@ func (e *Env) ident(name string) TV {
 	}
 	// local variable of the function (loop invariants, asserts)
 	if e.fn != nil {
-		if tv, ok := e.localVar(name); ok {
+		e.noUndef = true
+		tv, ok := e.localVar(name)
+		e.noUndef = false
+		if ok {
 			return tv
 		}
 	}
@@ -688,6 +730,11 @@ func (e *Env) ident(name string) TV {
 	if e.pkg != nil {
 		if obj := e.pkg.Scope().Lookup(name); obj != nil {
 			return e.pkgObject(obj)
+		}
+	}
+	if e.fn != nil {
+		if tv, ok := e.localVar(name); ok {
+			return tv
 		}
 	}
 	specErr("unknown identifier %q", name)
@@ -785,6 +832,9 @@ func (e *Env) localVar(name string) (TV, bool) {
 	// the variable exists in the function but is not defined on this path (e.g. a
 	// postcondition evaluated at an early return): an arbitrary value of its type
 	for _, b := range e.fn.Blocks {
+		if e.noUndef {
+			break
+		}
 		for _, ins := range b.Instrs {
 			if p, ok := ins.(*ssa.Phi); ok && p.Comment == name {
 				c := u.s.declConst("undef$"+mangle(e.fn.Name()+"$"+name), u.ty.sortOf(p.Type()))
@@ -818,6 +868,18 @@ func (e *Env) localVar(name string) (TV, bool) {
 		}
 	}
 	if len(cands) == 0 {
+		// declared in the function but not defined on this path: arbitrary value
+		for _, dv := range vals {
+			if e.noUndef {
+				break
+			}
+			t := dv.v.Type()
+			if dv.isAddr {
+				t = derefNamed(t)
+			}
+			c := u.s.declConst("undef$"+mangle(e.fn.Name()+"$"+name), u.ty.sortOf(t))
+			return TV{T: c, Ty: t}, true
+		}
 		return TV{}, false
 	}
 	// the merged (phi) value of the variable wins over the constants assigned to it
